@@ -1,4 +1,4 @@
-import OpusProofs.CtlMs
+import OpusProofs.CtlSurround
 import OpusProofs.EncDecideHonour
 import OpusModel.Gen.CtlConsts
 /-
@@ -205,6 +205,63 @@ theorem create_rejects_multistream (fs channels streams coupled : Int) (mapping 
    (msEncCreate_spec fs channels streams coupled mapping app allocOk).2.2,
    (msDecCreate_spec fs channels streams coupled mapping allocOk).2.2⟩
 
+/-- **create_rejects** (surround encoder, mapping families 0/1/2/255).  For every Int argument:
+    channels outside 1..255 → OPUS_BAD_ARG; a (family, channels) pair for which no layout is defined
+    (`surroundLegalB`: family 0 with 1–2, family 1 with 1–8, family 255 with 1–255 channels, family 2
+    with n² or n²+2 ≤ 227 channels; any other family) → OPUS_UNIMPLEMENTED; failed allocation →
+    OPUS_ALLOC_FAIL; unsupported rate or application → OPUS_BAD_ARG; otherwise an encoder whose
+    reported (streams, coupled, mapping) is the family's layout.  (That these layouts are the RFC
+    7845 / RFC 8486 ones is C10 `surround_layout_valid`.) -/
+theorem create_rejects_surround (fs ch fam app : Int) (allocOk : Bool) :
+    (ch < 1 ∨ ch > 255 → msSurroundCreate fs ch fam app allocOk = .err .badArg) ∧
+    (1 ≤ ch ∧ ch ≤ 255 → surroundLegalB ch.toNat fam = false →
+        msSurroundCreate fs ch fam app allocOk = .err .unimplemented) ∧
+    (1 ≤ ch ∧ ch ≤ 255 → surroundLegalB ch.toNat fam = true → allocOk = false →
+        msSurroundCreate fs ch fam app allocOk = .err .allocFail) ∧
+    (1 ≤ ch ∧ ch ≤ 255 → surroundLegalB ch.toNat fam = true → allocOk = true → (validFs fs && validApp app) = false →
+        msSurroundCreate fs ch fam app allocOk = .err .badArg) ∧
+    (1 ≤ ch ∧ ch ≤ 255 → surroundLegalB ch.toNat fam = true → allocOk = true → (validFs fs && validApp app) = true →
+        ∃ s st cp mp, msSurroundCreate fs ch fam app allocOk = .ok (s, st, cp, mp) ∧
+          surroundLayout ch fam = .ok (st, cp, mp) ∧ s.streams = msStreams fs st cp app (if fam = 1 ∧ ch ≥ 6 then st - 1 else -1)) :=
+  msSurroundCreate_spec fs ch fam app allocOk
+
+/-- **create_rejects** (projection / ambisonics encoder, family 3).  Success exactly for family 3,
+    4/6/9/11/16/18/25/27/36/38 channels (orders 1–5, with or without the non-diegetic pair), a legal
+    rate and application and a successful allocation, with (ch+1)/2 streams of which ch/2 coupled;
+    any other family or channel count is reported as OPUS_ALLOC_FAIL (`_get_size` returns 0), as is
+    a failed allocation; an unsupported rate or application is OPUS_BAD_ARG. -/
+theorem create_rejects_projection (fs ch fam app : Int) (allocOk : Bool) :
+    let legal := fam = 3 ∧ 0 ≤ ch ∧ projLegalB ch.toNat = true
+    (¬ legal → projEncCreate fs ch fam app allocOk = .err .allocFail) ∧
+    (legal → allocOk = false → projEncCreate fs ch fam app allocOk = .err .allocFail) ∧
+    (legal → allocOk = true → (validFs fs && validApp app) = false → projEncCreate fs ch fam app allocOk = .err .badArg) ∧
+    (legal → allocOk = true → (validFs fs && validApp app) = true →
+        ∃ s, projEncCreate fs ch fam app allocOk = .ok (s, (ch + 1) / 2, ch / 2) ∧
+          s.ms.streams = msStreams fs ((ch + 1) / 2) (ch / 2) app (-1) ∧ s.ms.nbChannels = ch) :=
+  projEncCreate_spec fs ch fam app allocOk
+
+/-- **set_get** (projection encoder): every multistream request behaves as on the multistream
+    encoder inside (so `set_get_multistream` applies), and the three projection getters report the
+    demixing-matrix size `channels·(streams+coupled)·2` and gain without touching the state. -/
+theorem set_get_projection (s : ProjEncSt) :
+    (∀ r, (projEncCtl s (.ms r)).1.ms = (msEncCtl s.ms r).1 ∧ (projEncCtl s (.ms r)).2 = (msEncCtl s.ms r).2 ∧
+          (projEncCtl s (.ms r)).1.demixGain = s.demixGain) ∧
+    projEncCtl s (.demixSize true) = (s, .okv (s.ms.nbChannels * (s.ms.nbStreams + s.ms.nbCoupled) * 2)) ∧
+    projEncCtl s (.demixGain true) = (s, .okv s.demixGain) ∧
+    projEncCtl s (.demixMatrix true ((s.ms.nbStreams + s.ms.nbCoupled) * s.ms.nbChannels * 2)) = (s, .ok) :=
+  ⟨fun _ => ⟨rfl, rfl, rfl⟩, (projEncCtl_demix s).1, (projEncCtl_demix s).2.1, (projEncCtl_demix s).2.2.2.2.2.2⟩
+
+/-- **reject_unchanged** (projection encoder): a failing request — NULL pointer, wrong matrix size,
+    or any failing multistream request — leaves the whole object unchanged; and `MsInv` is kept. -/
+theorem reject_unchanged_projection (s : ProjEncSt) (hi : MsInv s.ms) (r : ProjEncReq) :
+    ((projEncCtl s r).2.code ≠ 0 → (projEncCtl s r).1 = s) ∧ MsInv (projEncCtl s r).1.ms ∧
+    projEncCtl s (.demixSize false) = (s, .err .badArg) ∧ projEncCtl s (.demixGain false) = (s, .err .badArg) ∧
+    (∀ size, projEncCtl s (.demixMatrix false size) = (s, .err .badArg)) ∧
+    (∀ size, size ≠ (s.ms.nbStreams + s.ms.nbCoupled) * s.ms.nbChannels * 2 →
+        projEncCtl s (.demixMatrix true size) = (s, .err .badArg)) :=
+  ⟨projEncCtl_error_unchanged hi r, projEncCtl_inv hi r, (projEncCtl_demix s).2.2.1, (projEncCtl_demix s).2.2.2.1,
+   (projEncCtl_demix s).2.2.2.2.1, (projEncCtl_demix s).2.2.2.2.2.1⟩
+
 /-! ## 5. Settings bind the packet (for ALL values of the DSP-dependent inputs)
 
   `s` is any state satisfying `DInv` — by `ctl_inv` every state reachable by a ctl/encode history.
@@ -369,6 +426,10 @@ example : getNbChannels (stepNormal exAfterStereo { exOracle with autoMode := 10
                             { exOracle with autoMode := 1000 } 960 1276).2.toc = 1 := by decide +kernel
 example : SilkBwContract exEnc.toDSt exOracle 960 1276 := by unfold SilkBwContract; decide +kernel
 example : MsEncArgsLegal 48000 3 2 1 [0, 1, 2] 2049 := by unfold MsEncArgsLegal; decide +kernel
+example : surroundLegalB 6 1 = true ∧ surroundLegalB 9 1 = false ∧ surroundLegalB 11 2 = true ∧ surroundLegalB 5 2 = false ∧
+    surroundLayout 6 1 = .ok (4, 2, [0, 4, 1, 2, 3, 5]) ∧ projLegalB 11 = true ∧ projLegalB 5 = false := by decide +kernel
+example : (match projEncCreate 48000 4 3 2049 true with | .ok (s, st, cp) => st == 2 && cp == 2 && s.demixGain == 0 | _ => false) = true ∧
+    projEncCreate 48000 5 3 2049 true = .err .allocFail ∧ projEncCreate 44100 4 3 2049 true = .err .badArg := by decide +kernel
 /-- The repaired multistream FORCE_CHANNELS(2): refused, nothing changed. -/
 example : (match msEncCreate 48000 3 2 1 [0, 1, 2] 2049 true with
     | .ok s => decide (msEncCtl s (.set .forceChannels 2) = (s, .err .badArg))
